@@ -12,6 +12,7 @@ package db
 
 import (
 	"bufio"
+	"bytes"
 	"context"
 	"encoding/json"
 	"fmt"
@@ -62,7 +63,9 @@ func (db *DB) basicImport(ctx context.Context, filepath string) (err error) {
 		}
 
 		for d.More() {
-			docMap := map[string]any{}
+			// The field values are kept as raw JSON so that they reach the document exactly as
+			// they were exported: decoding them into `any` would turn every number into a float64.
+			docMap := map[string]json.RawMessage{}
 			err = d.Decode(&docMap)
 			if err != nil {
 				return NewErrJSONDecode(err)
@@ -73,8 +76,13 @@ func (db *DB) basicImport(ctx context.Context, filepath string) (err error) {
 			for _, field := range col.Schema().Fields {
 				if field.Kind.IsObject() && !field.Kind.IsArray() {
 					if val, ok := docMap[field.Name+request.RelatedObjectID]; ok {
-						if docMap[request.NewDocIDFieldName] == val {
-							resetMap[field.Name+request.RelatedObjectID] = val
+						if bytes.Equal(docMap[request.NewDocIDFieldName], val) {
+							var relatedDocID any
+							err = json.Unmarshal(val, &relatedDocID)
+							if err != nil {
+								return NewErrJSONDecode(err)
+							}
+							resetMap[field.Name+request.RelatedObjectID] = relatedDocID
 							delete(docMap, field.Name+request.RelatedObjectID)
 						}
 					}
@@ -84,7 +92,12 @@ func (db *DB) basicImport(ctx context.Context, filepath string) (err error) {
 			delete(docMap, request.DocIDFieldName)
 			delete(docMap, request.NewDocIDFieldName)
 
-			doc, err := client.NewDocFromMap(docMap, col.Definition())
+			docJSON, err := json.Marshal(docMap)
+			if err != nil {
+				return NewErrDocFromMap(err)
+			}
+
+			doc, err := client.NewDocFromJSON(docJSON, col.Definition())
 			if err != nil {
 				return NewErrDocFromMap(err)
 			}
